@@ -15,7 +15,7 @@ RULE = ("request specs: 9 methods x unicode paths over an alphabet with reserved
         "query dicts and form dicts whose keys/values contain & = + % # ? ; space and non-ASCII x header sets (token names in "
         "mixed case, latin-1 values with ': ', blanks, empty) x raw / JSON / form bodies, with and without explicit "
         "Content-Length; built by the real Requester, parsed by the real Requestant + Server.buildEnviron; a second stream "
-        "all requests of a history are also fed to ONE Requestant (pipelined or one after the other, in a quarter of the cases after a hand-written chunked / Content-Length / cookie-bearing first request) and every parse is compared with the parse of the same request alone; each request is followed by 0-3 rebuild() calls on the same Requester (no arguments, or only some of method / path / qargs / headers / body, the rest carried over), every build parsed and compared; a further stream leaves the well-formed domain (path with ? or #, // prefix, control characters, CR/LF in header values) where only "
+        "all requests of a history are also fed to ONE Requestant and to a real WSGI Server connection (whole, one request per receive, or - half of the cases - cut into 2-4 receives at arbitrary byte positions incl. right after a header line, between CR and LF and inside header names/values, with a parse()/service() between receives; in a quarter of the cases after a hand-written chunked / Content-Length / cookie-bearing first request) and every parse is compared with the parse of the same request alone; each request is followed by 0-3 rebuild() calls on the same Requester (no arguments, or only some of method / path / qargs / headers / body, the rest carried over), every build parsed and compared; a further stream leaves the well-formed domain (path with ? or #, // prefix, control characters, CR/LF in header values) where only "
         "model/implementation agreement is compared. Non-trivial: a reserved or non-ASCII character in path, key, value or header value")
 MODELLED = ["urllib.parse.quote/quote_plus/unquote/unquote_plus/urlsplit/parse_qsl and UTF-8 coding (Gallina functions; swept against CPython in C16's and this driver's extra())",
             "json.dumps of the data argument (external: the encoded bytes are part of the request spec)",
@@ -116,37 +116,65 @@ def specs(case):
     return out
 
 
+def _offsets(case, msgs):
+    """byte offsets at which the connection's byte stream is cut into separate receives"""
+    stream = b"".join(msgs)
+    offs = set()
+    if not case.get("pipelined", True):          # one request per receive
+        n = 0
+        for m in msgs[:-1]:
+            n += len(m)
+            offs.add(n)
+    crlf = [i for i in range(len(stream) - 1) if stream[i:i + 2] == b"\r\n"]
+    for kind, x in case.get("cuts", []):
+        if kind == "frac":
+            offs.add(int(len(stream) * x / 10000))
+        elif crlf:
+            i = crlf[x % len(crlf)]
+            offs.add({"hdr": i + 2, "crlf": i + 1, "mid": i + 5, "pre": max(i - 2, 1)}[kind])
+    return stream, sorted(o for o in offs if 0 < o < len(stream))
+
+
+def _pieces(stream, offs):
+    out, prev = [], 0
+    for o in offs + [len(stream)]:
+        out.append(stream[prev:o]); prev = o
+    return out
+
+
 def _stream(case, wires):
-    """All built requests of the history through ONE Requestant (one server connection): pipelined (whole
-    stream in the buffer at once) or one after the other (next request appended after the previous one ended),
-    optionally after a hand-written first request.  -> (stream bytes, list of parsed tuples or None)"""
+    """All built requests of the history through ONE Requestant (one server connection), optionally after a
+    hand-written first request; the byte stream arrives in the receives given by the case (whole, one request per
+    receive, or cut at arbitrary offsets) with a parse() after each.  -> (stream bytes, parsed tuples or None)"""
     from hio.core.http import serving
     pre = bytes.fromhex(case.get("first_raw", ""))
     msgs = ([pre] if pre else []) + wires
+    stream, offs = _offsets(case, msgs)
     buf = bytearray()
     rq = serving.Requestant(msg=buf, remoter=_Remoter())
-    out = []
-    pipelined = case.get("pipelined", True)
-    if pipelined:
-        buf.extend(b"".join(msgs))
-    for i, m in enumerate(msgs):
-        if not pipelined:
-            buf.extend(m)
-        if i > 0:
-            rq.makeParser()
-        try:
-            for _ in range(6):
-                if rq.parser:
-                    rq.parse()
-        except Exception as ex:
-            out.append(None)
+    out, dead = [], False
+    for piece in _pieces(stream, offs) + [b"", b""]:
+        buf.extend(piece)
+        for _ in range(len(msgs) + 2):
+            if dead or len(out) >= len(msgs):
+                break
+            try:
+                rq.parse()
+            except Exception:
+                out.append(None); dead = True
+                break
+            if rq.parser is None and rq.ended:
+                if rq.errored:
+                    out.append(None); dead = True
+                    break
+                out.append({"method": rq.method, "path": rq.path, "query": rq.query,
+                            "headers": [[k, v] for k, v in rq.headers.items()], "body": bytes(rq.body).hex()})
+                rq.makeParser()
+                continue
             break
-        if not rq.ended or rq.errored:
-            out.append(None)
-            break
-        out.append({"method": rq.method, "path": rq.path, "query": rq.query,
-                    "headers": [[k, v] for k, v in rq.headers.items()], "body": bytes(rq.body).hex()})
-    return b"".join(msgs), out
+    if not dead and len(out) < len(msgs):
+        out.append(None)          # the next request never completed
+    return stream, out
 
 
 def _wsgi(case, wires):
@@ -175,15 +203,14 @@ def _wsgi(case, wires):
     srv.servant.ss, srv.servant.opened = ls, True
     a = FakeSock(("127.0.0.1", 40001), PORT)
     ls.pending.append(a)
-    pipelined = case.get("pipelined", True)
+    stream, offs = _offsets(case, msgs)
+    pieces = _pieces(stream, offs)
     err = None
     with contextlib.redirect_stderr(io.StringIO()):
         try:
-            if pipelined:
-                a.inq.append(b"".join(msgs))
-            for i in range(len(msgs) + 3):
-                if not pipelined and i < len(msgs):
-                    a.inq.append(msgs[i])
+            for i in range(len(pieces) + len(msgs) + 3):
+                if i < len(pieces) and pieces[i]:
+                    a.inq.append(pieces[i])
                 srv.service()
         except Exception as ex:
             err = type(ex).__name__ + ": " + str(ex)[:100]
@@ -572,6 +599,9 @@ def generate(rng, tier):
             c["headers"] = [h for h in c["headers"] if h[0].lower() != "content-length"]
             c["ops"] = [_op(rng) for _ in range(nops)]
         c["pipelined"] = rng.random() < 0.5
+        if rng.random() < 0.5:      # the stream arrives in 2-4 fragments at arbitrary byte positions
+            c["cuts"] = [[rng.choice(["frac", "hdr", "hdr", "crlf", "mid", "pre"]), rng.randrange(10000)]
+                         for _ in range(rng.randint(1, 3))]
         if rng.random() < 0.25:
             c["first_raw"] = rng.choice(FIRST_RAW).hex()
         out.append(c)
@@ -609,6 +639,11 @@ def directed():
         R(path="/after-chunked", first_raw=FIRST_RAW[0].hex(), ops=[{"method": "POST", "body": ["raw", b"abc".hex()]}], pipelined=True),
         R(path="/after-length", first_raw=FIRST_RAW[1].hex(), ops=[{}], pipelined=False),
         R(method="POST", path="/after-cookies", first_raw=FIRST_RAW[2].hex(), body=["raw", b"q".hex()], ops=[{"method": "GET"}], pipelined=True),
+        # the head arrives in several receives: after a header line, between CR and LF, inside a name / value
+        R(method="POST", path="/frag", headers=[["X-One", "1"], ["X-Two", "22"]], body=["raw", b"payload".hex()], cuts=[["hdr", 1]]),
+        R(method="POST", path="/frag", headers=[["X-One", "1"], ["X-Two", "22"]], body=["raw", b"payload".hex()], cuts=[["hdr", 2], ["hdr", 3]], ops=[{}]),
+        R(method="PUT", path="/frag2", headers=[["Accept", "a/b"]], body=["json", {"a": [1, 2]}], cuts=[["crlf", 1], ["mid", 2], ["pre", 3]], ops=[{"method": "GET"}]),
+        R(path="/frag3", qargs=[["k", "v"]], cuts=[["frac", 100], ["frac", 5000], ["frac", 9900]], ops=[{}, {}]),
     ]
 
 
